@@ -39,7 +39,7 @@ Load ==
   /\ IF ci > N THEN phase' = "done" /\ UNCHANGED <<ci, pi, base, fails, lenient>>
      ELSE /\ phase' = "probe" /\ pi' = 1 /\ lenient' = 0
           /\ base' = IF C.mode = "trunc" THEN Enc(S, ExpandV(C.value)) ELSE <<>>
-          /\ fails' = IF C.mode = "trunc" /\ ExpandRuns(C.enc) # Enc(S, ExpandV(C.value))
+          /\ fails' = IF C.mode = "trunc" /\ Bytes(C.enc) # Enc(S, ExpandV(C.value))
                       THEN {[c |-> "harness_input_mismatch", p |-> 0]} ELSE {}
           /\ UNCHANGED ci
 
@@ -58,7 +58,7 @@ TruncFails(p) ==
         ELSE {})
 
 MutFails(p) ==
-  LET bs == ExpandRuns(p.b) n == Len(bs) IN
+  LET bs == Bytes(p.b) n == Len(bs) IN
      (IF p.consumed <= n THEN {} ELSE {"consumed_more_than_given"})
   \cup (IF p.reads <= 2 * n + 2 THEN {} ELSE {"reads_not_linear_in_input"})
   \cup (IF p.out = "budget" THEN {"decoder_did_not_terminate"} ELSE {})
